@@ -187,7 +187,9 @@ def _one(case, p, meta, tdir, res):
         En = R(elem_abund(abn, e))
         ask(f"{tag}:element{e}:E(ab')=b*H(ab)", En != b[e] * Hold, f"after renormalisation the total of element {e} is not reference ratio x hydrogen nuclei")
     Hn = R(hnuc(abn))
-    ask(f"{tag}:H-nuclei-preserved", Hn != Hold, "renormalisation changes the hydrogen-nuclei total although the reference ratio of H is 1", extra=[b[eH] == 1])
+    # H(ab') = b_H * H(ab) as a polynomial identity; with the stored reference ratio of hydrogen b_H = 1
+    # (SetReferenceAbund, checked at class level) the hydrogen-nuclei total is preserved
+    ask(f"{tag}:H-nuclei-preserved", Hn != b[eH] * Hold, "renormalisation changes the hydrogen-nuclei total although the reference ratio of H is 1")
     # (3) generated helper equals the count-weighted sum of abundances
     slots = {sp["name"]: macros["IDX_" + sp["alias"]] for sp in meta["species"]}
     for e, el in enumerate(meta["elements"]):
